@@ -551,8 +551,24 @@ func (r *rw) exprSeams(b *ast.BlockStmt) {
 					r.rep.Modelled = append(r.rep.Modelled, "WaitGroup.Wait at "+r.where(n.Pos()))
 				}
 				c.Replace(simCall("WG"+fn.Name(), append([]ast.Expr{recv}, n.Args...)...))
-			case fn.Pkg().Path() == "sync" && isNamed(recvT, "sync", "Cond") && fn.Name() == "Wait":
-				r.rep.Unmodelled = append(r.rep.Unmodelled, "sync "+fn.Name()+" at "+r.where(n.Pos()))
+			case fn.Pkg().Path() == "sync" && isNamed(recvT, "sync", "Cond") && (fn.Name() == "Wait" || fn.Name() == "Signal" || fn.Name() == "Broadcast") && len(n.Args) == 0:
+				xt := r.info.TypeOf(sel.X)
+				var recv ast.Expr
+				if _, isPtr := xt.(*types.Pointer); isPtr && isNamed(xt, "sync", "Cond") {
+					recv = sel.X
+				} else if isNamed(xt, "sync", "Cond") {
+					recv = &ast.UnaryExpr{Op: token.AND, X: sel.X}
+				}
+				if recv == nil {
+					if fn.Name() == "Wait" {
+						r.rep.Unmodelled = append(r.rep.Unmodelled, "embedded sync.Cond.Wait at "+r.where(n.Pos()))
+					}
+					return true
+				}
+				if fn.Name() == "Wait" {
+					r.rep.Modelled = append(r.rep.Modelled, "Cond.Wait at "+r.where(n.Pos()))
+				}
+				c.Replace(simCall("Cond"+fn.Name(), recv))
 			}
 		}
 		return true
@@ -766,7 +782,7 @@ func (r *rw) callsSync(s ast.Stmt) bool {
 			return false
 		case *ast.CallExpr:
 			if sel, ok := x.Fun.(*ast.SelectorExpr); ok {
-				if id, ok := sel.X.(*ast.Ident); ok && id.Name == "verifsim" && (sel.Sel.Name == "Lock" || sel.Sel.Name == "OnceDo" || sel.Sel.Name == "WaitGroupWait" || sel.Sel.Name == "WGWait" || sel.Sel.Name == "WGAdd" || sel.Sel.Name == "WGDone" || sel.Sel.Name == "Send" || sel.Sel.Name == "Recv" || sel.Sel.Name == "Recv2" || sel.Sel.Name == "Close" || sel.Sel.Name == "Select") {
+				if id, ok := sel.X.(*ast.Ident); ok && id.Name == "verifsim" && (sel.Sel.Name == "Lock" || sel.Sel.Name == "OnceDo" || sel.Sel.Name == "WaitGroupWait" || sel.Sel.Name == "WGWait" || sel.Sel.Name == "CondWait" || sel.Sel.Name == "CondSignal" || sel.Sel.Name == "CondBroadcast" || sel.Sel.Name == "WGAdd" || sel.Sel.Name == "WGDone" || sel.Sel.Name == "Send" || sel.Sel.Name == "Recv" || sel.Sel.Name == "Recv2" || sel.Sel.Name == "Close" || sel.Sel.Name == "Select") {
 					found = true
 					return false
 				}
